@@ -67,6 +67,24 @@ def check(ctx):
         ynf, L.nf if isinstance(L, Num) else nf.sym("?"),
     )
 
+    check_from_table(ctx, "C15-c", q)
+    from .common import check_interp_options
+
+    check_interp_options(ctx, "C15-d", ["bluebonnet.flow.flowproperties"], 5)
+    # C15-e: "scaled pseudopressure is 1 at the initial pressure": the wrapper's scaling factor is interpolated at p_i and
+    # m_i is the scaled column interpolated at p_i (shared with C03-a / C09-c)
+    from .c03 import scaling_factor
+    from .c09 import check_initial_value
+
+    scaling_factor(ctx, "C15-e")
+    check_initial_value(ctx, "C15-e", "C15-e", classes=("FlowProperties",))
+    ctx.floor("C15", len(ctx.obligs), 10, "multiphase pseudopressure obligations")
+
+
+def check_from_table(ctx, rule, q=None):
+    """from_table wiring (shared with C16: the diffusivity it tabulates is alpha_multiphase's, i.e. mobility over storage)"""
+    P = ctx.P
+    q = q or FP + "pseudopressure_threephase"
     # ---- C15-c from_table wiring
     qf = FP + "FlowPropertiesTwoPhase.from_table"
     ff = P.func(qf)
@@ -82,23 +100,12 @@ def check(ctx):
     if direct:
         for pi, fp_ in enumerate(fpaths):
             tag = "" if len(fpaths) == 1 else f" [path {pi + 1}: " + ", ".join(("" if c else "not ") + d[:60] for _k, c, d in fp_.decisions) + "]"
-            _from_table_path(ctx, it2, fp_, qf, ff, q, qa, pcol, socol, tag)
+            _from_table_path(ctx, it2, fp_, qf, ff, q, qa, pcol, socol, tag, rule)
     else:
-        _from_table_by_value(ctx, qf, ff, q, qa, cls, pcol, socol)
-    from .common import check_interp_options
-
-    check_interp_options(ctx, "C15-d", ["bluebonnet.flow.flowproperties"], 5)
-    # C15-e: "scaled pseudopressure is 1 at the initial pressure": the wrapper's scaling factor is interpolated at p_i and
-    # m_i is the scaled column interpolated at p_i (shared with C03-a / C09-c)
-    from .c03 import scaling_factor
-    from .c09 import check_initial_value
-
-    scaling_factor(ctx, "C15-e")
-    check_initial_value(ctx, "C15-e", "C15-e", classes=("FlowProperties",))
-    ctx.floor("C15", len(ctx.obligs), 10, "multiphase pseudopressure obligations")
+        _from_table_by_value(ctx, qf, ff, q, qa, cls, pcol, socol, rule)
 
 
-def _from_table_path(ctx, it2, fp_, qf, ff, q, qa, pcol, socol, tag):
+def _from_table_path(ctx, it2, fp_, qf, ff, q, qa, pcol, socol, tag, rule="C15-c"):
     calls = {e.data["callee"]: e for e in fp_.events if e.kind == "int_call" and e.func == qf}
 
     def table_ok(d, keys, table, xkey):
@@ -120,7 +127,7 @@ def _from_table_path(ctx, it2, fp_, qf, ff, q, qa, pcol, socol, tag):
     for callee, argnames in ((q, ("pressure", "So", "pvt", "kr")), (qa, ("pressure", "So", "phi", "Sw", "pvt", "kr"))):
         e = calls.get(callee)
         if e is None:
-            ctx.bad("C15-c", qf + ":" + callee.split(".")[-1] + tag, ff.where(), f"from_table computes {callee.split('.')[-1]}", signature="call missing")
+            ctx.bad(rule, qf + ":" + callee.split(".")[-1] + tag, ff.where(), f"from_table computes {callee.split('.')[-1]}", signature="call missing")
             continue
         a = e.data["args"]
         where = f"{ff.file}:{e.line}"
@@ -139,7 +146,7 @@ def _from_table_path(ctx, it2, fp_, qf, ff, q, qa, pcol, socol, tag):
             if fb != [nf.sym("reference_densities")] and not all(k in a["pvt"].items for k in ("rho_o0", "rho_g0", "rho_w0")):
                 probs.append("reference densities are not merged into pvt")
         ctx.check(
-            not probs, "C15-c", qf + ":" + callee.split(".")[-1] + " arguments" + tag, where,
+            not probs, rule, qf + ":" + callee.split(".")[-1] + " arguments" + tag, where,
             f"{callee.split('.')[-1]} receives the table's pressure and So columns and interpolators keyed by the column they interpolate (x = pressure / So)",
             signature="; ".join(probs)[:200], problems=probs,
         )
@@ -150,6 +157,17 @@ def _from_table_path(ctx, it2, fp_, qf, ff, q, qa, pcol, socol, tag):
     d = a.get("pvt_props")
     where = f"{ff.file}:{cons[0].line}"
     if not isinstance(d, DictV):
+        from ..values import ExtObj as _ExtObj
+
+        if isinstance(d, _ExtObj) and d.qual.startswith("pandas."):
+            # a frame assembled by pandas (concat / Series / join) pairs its pieces by index label, not by position: the
+            # caller's pressure column keeps the caller's labels, the columns computed here get 0..n-1
+            ctx.bad(
+                rule, qf + ":wrapper table" + tag, where,
+                "the wrapper is given a mapping of column name -> array built here, so that row i of every column belongs to row i of the caller's table (a pandas object assembled with concat / Series aligns the pieces on their index labels instead)",
+                signature="wrapper table " + d.qual, built_by=d.qual,
+            )
+            return
         raise AnalysisError(f"{qf}: the wrapper is not given a literal table")
     want = {"pressure": ("column", pcol), "pseudopressure": ("call", q), "alpha": ("call", qa)}
     for k, (kind, w) in want.items():
@@ -161,17 +179,17 @@ def _from_table_path(ctx, it2, fp_, qf, ff, q, qa, pcol, socol, tag):
             at = it2.single_atom(vn) if vn is not None else None
             ok = at is not None and at[0] == "fn" and at[1] == w
         ctx.check(
-            ok, "C15-c", qf + f":wrapper['{k}']" + tag, where,
+            ok, rule, qf + f":wrapper['{k}']" + tag, where,
             f"the wrapper's '{k}' column is " + ("the table's pressure column" if kind == "column" else f"the result of {w.split('.')[-1]}"),
             signature=f"wrapper {k}", found=nf.show(vn, 160) if vn is not None else "missing",
         )
     ctx.check(
-        it2.to_nf(a.get("p_i")) == nf.sym("p_i"), "C15-c", qf + ":wrapper p_i" + tag, where,
+        it2.to_nf(a.get("p_i")) == nf.sym("p_i"), rule, qf + ":wrapper p_i" + tag, where,
         "the wrapper is built at the caller's initial pressure", signature="p_i",
     )
 
 
-def _from_table_by_value(ctx, qf, ff, q, qa, cls, pcol, socol):
+def _from_table_by_value(ctx, qf, ff, q, qa, cls, pcol, socol, rule="C15-c"):
     """from_table does not call pseudopressure_threephase / alpha_multiphase itself (it shares intermediate results,
     say): the columns it hands to the wrapper must then *equal* what those two functions return for the table's
     pressure and So columns and the interpolator tables it built - evaluated in the same trace partition."""
@@ -220,7 +238,7 @@ def _from_table_by_value(ctx, qf, ff, q, qa, cls, pcol, socol):
         mark = next((k for k, e in enumerate(fp_.events) if e.kind == "marker" and e.data.get("name") == "reference"), len(fp_.events))
         cons = [e for e in fp_.events[:mark] if e.kind == "construct" and isinstance(e.data["args"].get("pvt_props"), DictV)]
         if len(ref) != 1 or len(cons) != 1:
-            ctx.bad("C15-c", qf + ":wiring", ff.where(), "from_table builds interpolator tables, evaluates mobility / diffusivity / pseudopressure on the table's columns and hands them to one wrapper", signature="from_table shape", references=len(ref), constructions=len(cons))
+            ctx.bad(rule, qf + ":wiring", ff.where(), "from_table builds interpolator tables, evaluates mobility / diffusivity / pseudopressure on the table's columns and hands them to one wrapper", signature="from_table shape", references=len(ref), constructions=len(cons))
             continue
         r = ref[0].data
         n += 1
@@ -231,15 +249,15 @@ def _from_table_by_value(ctx, qf, ff, q, qa, cls, pcol, socol):
             probs.append("So <- " + nf.show(it3.to_nf(r["So"]), 80))
         probs += ["pvt " + x for x in table_problems(r["pvt"], PVT_KEYS, "pvt_props", "pressure")]
         probs += ["kr " + x for x in table_problems(r["kr"], KR_KEYS, "kr_props", "So")]
-        ctx.check(not probs, "C15-c", qf + ":interpolator tables", ff.where(), "the functions are evaluated on the table's pressure and So columns with interpolators keyed by the column they interpolate (x = pressure / So)", signature="; ".join(probs)[:200], problems=probs)
+        ctx.check(not probs, rule, qf + ":interpolator tables", ff.where(), "the functions are evaluated on the table's pressure and So columns with interpolators keyed by the column they interpolate (x = pressure / So)", signature="; ".join(probs)[:200], problems=probs)
         d = cons[0].data["args"]["pvt_props"]
         where = f"{ff.file}:{cons[0].line}"
         for k, want, what in (("pressure", pcol, "the table's pressure column"), ("pseudopressure", it3.to_nf(r["m"]), "what pseudopressure_threephase returns for these columns and tables"), ("alpha", it3.to_nf(r["alpha"]), "what alpha_multiphase returns for these columns and tables")):
             v = d.items.get(k)
             vn = it3.to_nf(v) if v is not None else None
-            ctx.check(vn is not None and nf.equal(vn, want), "C15-c", qf + f":wrapper['{k}']", where, f"the wrapper's '{k}' column is " + what, signature=f"wrapper {k}", found=nf.show(vn, 160) if vn is not None else "missing")
-        ctx.check(it3.to_nf(cons[0].data["args"].get("p_i")) == nf.sym("p_i"), "C15-c", qf + ":wrapper p_i", where, "the wrapper is built at the caller's initial pressure", signature="p_i")
-    ctx.floor("C15-c", n, 1, "from_table partitions")
+            ctx.check(vn is not None and nf.equal(vn, want), rule, qf + f":wrapper['{k}']", where, f"the wrapper's '{k}' column is " + what, signature=f"wrapper {k}", found=nf.show(vn, 160) if vn is not None else "missing")
+        ctx.check(it3.to_nf(cons[0].data["args"].get("p_i")) == nf.sym("p_i"), rule, qf + ":wrapper p_i", where, "the wrapper is built at the caller's initial pressure", signature="p_i")
+    ctx.floor(rule, n, 1, "from_table partitions")
 
 
 def _is_root(it, v):
